@@ -33,12 +33,17 @@ def pair_ok(j, d):
         return t
     if j0[0] == 'field' and d0[0] == 'field':
         bj, bd = item_base(j0), item_base(d0)
-        if bj == bd and bj[0] == 'downcast' and bj[2] == 'Some':
+        is_item = lambda t: t[0] == 'downcast' and t[2] == 'Some'
+        if bj == bd and j0[1] == d0[1] and j0[3] + 1 == d0[3]:
             # same tuple level: .k and .k+1 (entry directly before its payload)
-            if j0[1] == d0[1] and j0[3] + 1 == d0[3]:
+            if is_item(bj):
                 return True, 'the entry and payload of one iterator item'
+            return True, 'the two components of one (entry, payload) pair value (its constructions are checked where they are built)'
+        if bj == bd and is_item(bj):
             return False, f'fields {show(j0)[-12:]} and {show(d0)[-12:]} of the item are not an (entry, payload) pair'
-        return False, 'entry and payload come from different items'
+        if is_item(bj) and is_item(bd):
+            return False, 'entry and payload come from different items'
+        return None, f'entry {show(j0)[:40]} and payload {show(d0)[:40]} are components of values this rule does not relate'
     # (b) make_container_jentry(len(X)) with data X
     if is_call(j0, 'JEntry::make_container_jentry') and j0[2]:
         ln = strip_casts(j0[2][0])
@@ -59,7 +64,7 @@ def pair_ok(j, d):
                     return True, 'the entry word and payload of one scalar document'
                 return False, f'the scalar entry is read from {show(X)[:30]} but the payload is {show(d0)[:50]}'
         return False, f'entry word decoded from {show(src)[:50]}'
-    return False, f'entry {show(j0)[:50]} and payload {show(d0)[:50]} have no common source'
+    return None, f'entry {show(j0)[:50]} and payload {show(d0)[:50]}: no source relation recognised'
 
 
 def r06_2(ctx, run, rule='R06.2', floor=28):
@@ -84,23 +89,41 @@ def r06_2(ctx, run, rule='R06.2', floor=28):
                 loc = f"{t.get('file')}:{t.get('line')}"
                 if ok:
                     run.proved(rule, b.path, desc, why, loc)
+                elif ok is None:
+                    run.undecided(rule, b.path, desc, why + ': whether the entry word describes the payload is not decided', loc)
                 else:
                     run.violation(rule, b.path, desc, 'an entry word is paired with a payload it does not describe: ' + why + ' — the stored length/type no longer matches the bytes copied', loc)
-            # pairs pushed into a queue of (entry, payload) tuples must be consistent too
+            # (entry, payload) pair values built anywhere (queued, stored in a local, returned by a helper) must be consistent too
+            cands = []
             for e in q.calls():
-                if called(e[1], 'VecDeque::push_back', 'Vec::push') and len(e[2]) == 2:
-                    v = deref_all(e[2][1])
-                    if v[0] == 'agg' and v[1] == 'tuple' and len(v[2]) == 2 and is_call(deref_all(v[2][0]), 'JEntry::make_container_jentry', 'JEntry::decode_jentry') \
-                            and (deref_all(v[2][1])[0] == 'init' or is_call(deref_all(v[2][1]), 'Index::index')):
-                        ok, why = pair_ok(v[2][0], v[2][1])
-                        key = (b.path, e[5].get('line'), ok, 'q')
-                        if key in seen:
-                            continue
-                        seen.add(key)
-                        n += 1
-                        t = e[5]
-                        loc = f"{t.get('file')}:{t.get('line')}"
-                        (run.proved if ok else run.violation)(rule, b.path, f'queue-pair@{t.get("line") and "q"}', why if ok else 'queued (entry, payload) pair is inconsistent: ' + why, loc)
+                for a in e[2]:
+                    cands.append((a, e[5]))
+            for k_, v_ in q.store.items():
+                if isinstance(v_, tuple):
+                    cands.append((v_, None))
+            if q.ret is not None:
+                cands.append((q.ret, None))
+            for top, t in cands:
+                for v in subterms(top):
+                    if not (v[0] == 'agg' and v[1] == 'tuple' and len(v[2]) == 2):
+                        continue
+                    c0, c1 = deref_all(v[2][0]), deref_all(v[2][1])
+                    if not (is_call(c0, 'JEntry::make_container_jentry', 'JEntry::decode_jentry') and (c1[0] == 'init' or is_call(c1, 'Index::index'))):
+                        continue
+                    ok, why = pair_ok(v[2][0], v[2][1])
+                    key = (b.path, show(v)[:120], ok, 'q')
+                    if key in seen:
+                        continue
+                    seen.add(key)
+                    n += 1
+                    loc = f"{t.get('file')}:{t.get('line')}" if t else f'{b.file}:{b.line}'
+                    d_ = f'pair-value[{len([k for k in seen if k[0] == b.path and k[-1] == "q"]) - 1}]'
+                    if ok:
+                        run.proved(rule, b.path, d_, why, loc)
+                    elif ok is None:
+                        run.undecided(rule, b.path, d_, why, loc)
+                    else:
+                        run.violation(rule, b.path, d_, 'an (entry, payload) pair value is inconsistent: ' + why, loc)
     run.floor(rule, 'push_raw call sites', n, floor)
 
 
@@ -143,12 +166,20 @@ def r06_5(ctx, run, rule='R06.5'):
                 k = (b.path, show(src)[:70])
                 d = sites.setdefault(k, {'ok': True, 'why': str(r), 'line': line})
                 if not ok:
-                    d['ok'] = False
-                    d['why'] = f'operand ranges over {r}'
+                    from panics import opaque_container
+                    op_ = opaque_container(src, b, None, arithmetic=True)
+                    if op_ and not any(is_call(x, 'clamp', '::clamp', 'Ord::max', 'Ord::min') for x in subterms(src)) and d['ok'] is True:
+                        d['ok'] = None
+                        d['why'] = f'the position is computed through {op_}, which this rule has no range model for'
+                    else:
+                        d['ok'] = False
+                        d['why'] = f'operand ranges over {r}'
         for (p, desc), d in sorted(sites.items()):
             n += 1
             loc = f'{b.file}:{d["line"] or b.line}'
-            if d['ok']:
+            if d['ok'] is None:
+                run.undecided(rule, p, f'cast[{desc} as usize]', d['why'] + ': whether it can be negative here is not decided', loc)
+            elif d['ok']:
                 run.proved(rule, p, f'cast[{desc} as usize]', f'operand proven non-negative ({d["why"]})', loc)
             else:
                 run.violation(rule, p, f'cast[{desc} as usize]', f'a signed position is cast to usize although it may be negative ({d["why"]}): a negative position becomes a huge index '
@@ -580,15 +611,34 @@ def r07_8(ctx, run, rule='R07.8'):
                             root_producers.append(p)
     root_producers = sorted(set(root_producers))
     n = 0
+    helpers = {}
     for p, b in sorted(f.bodies.items()):
         if not p.startswith("jsonpath::selector::Selector::<'a>::") or b.kind == 'Promoted':
             continue
         paths, loops = region_paths(b)
-        nested = bad = unsure = 0
+        nested = bad = unsure = short = 0
         root_locals = {i for i in range(1, b.argc + 1) if b.name_of(i) == 'root' or '[u8]' in str(b.local_ty(i).get('s', ''))}
         def looks_at_root(t):
             """a condition computed from the document bytes by something this rule does not read (a helper call, a comparison of bytes)"""
             return any(s_[0] == 'init' and s_[1] in root_locals for s_ in subterms(t)) and any(s_[0] in ('call', 'index') or (s_[0] == 'bin' and s_[1] == 'BitAnd') for s_ in subterms(t))
+        def classify(q):
+            if kind_tested(q, exclude=True):
+                return 'ok'
+            for c in q.conds:
+                if c[0][0] == 'discr' and is_call(c[0][1], 'slice::get', '::get') and ((c[1] == 'eq' and c[2] == 0) or (c[1] == 'ne' and isinstance(c[2], tuple) and 1 in c[2])):
+                    # `value.get(..k)` is None: the bytes are shorter than k.  A scalar document is at least 8 bytes (header + entry word), so this
+                    # excludes a scalar document only for k <= 8
+                    g_ = c[0][1]
+                    r_ = deref_all(g_[2][1]) if len(g_[2]) == 2 else None
+                    k_ = None
+                    if r_ is not None and agg_variant(r_) and r_[1][1].endswith(('ops::RangeTo', 'ops::Range')) and r_[2]:
+                        k_ = const_of(r_[2][-1])
+                    if k_ is None:
+                        return 'unsure'
+                    return 'ok' if k_ <= 8 else 'short'
+            if any(looks_at_root(c[0]) for c in q.conds):
+                return 'unsure'
+            return 'bad'
         for q in paths:
             hit = False
             for e in q.calls():
@@ -596,23 +646,36 @@ def r07_8(ctx, run, rule='R07.8'):
                     for s in subterms(a):
                         if s[0] == 'bin' and s[1] == 'BitOr' and any(const_of(x) == CONTAINER_TAG for x in (s[2], s[3])):
                             hit = True
+            via_ret = False
             if q.ret is not None and any(s[0] == 'bin' and s[1] == 'BitOr' and any(const_of(x) == CONTAINER_TAG for x in (s[2], s[3])) for s in subterms(q.ret)):
                 hit = True
+                via_ret = True
             if not hit:
                 continue
             nested += 1
-            ok = kind_tested(q, exclude=True) or any(c[0][0] == 'discr' and is_call(c[0][1], 'slice::get', '::get') and ((c[1] == 'eq' and c[2] == 0) or (c[1] == 'ne' and 1 in c[2])) for c in q.conds)
-            if ok:
+            verdict = classify(q)
+            if verdict == 'ok':
                 continue
-            if any(looks_at_root(c[0]) for c in q.conds):
+            if verdict == 'bad' and via_ret and not any(True for e in q.calls() for a in e[2] for s in subterms(a)
+                                                         if s[0] == 'bin' and s[1] == 'BitOr' and any(const_of(x) == CONTAINER_TAG for x in (s[2], s[3]))):
+                # a helper that only *returns* the entry word: the kind test may sit in its callers
+                helpers.setdefault(p, []).append(q)
+                nested -= 1
+                continue
+            if verdict == 'unsure':
                 unsure += 1
+            elif verdict == 'short':
+                short += 1
             else:
                 bad += 1
         if not nested:
             continue
         n += 1
         loc = f'{b.file}:{b.line}'
-        if not bad and not unsure:
+        if short:
+            run.violation(rule, p, 'nested-entry', f'{short} path(s) nest the copied bytes under a CONTAINER_TAG entry word whenever they are shorter than a prefix longer than 8 bytes: '
+                          'a scalar document with an empty payload (null, true, false, "") is exactly 8 bytes (header + entry word) and would be nested as a container', loc)
+        elif not bad and not unsure:
             run.proved(rule, p, 'nested-entry', f'{nested} path(s) emit a CONTAINER_TAG entry for copied bytes, each after the header kind of those bytes was tested', loc)
         elif not root_producers:
             run.proved(rule, p, 'nested-entry', 'no selector function records the whole root as a Container position without testing its header kind', loc)
@@ -623,5 +686,102 @@ def r07_8(ctx, run, rule='R07.8'):
             run.violation(rule, p, 'nested-entry', f'{bad} path(s) copy the bytes of a Container position and give them a CONTAINER_TAG entry word without testing their header kind, while '
                           f'{root_producers[0].split("::")[-1]} records the whole root document (which may be a scalar document) as a Container position: `$` on a scalar root '
                           'in array mode nests a scalar document as an element, which is not the canonical encoding', loc)
+    for hp, hq in sorted(helpers.items()):
+        hb = f.bodies[hp]
+        n += 1
+        verdicts = []
+        for p2, b2 in sorted(f.bodies.items()):
+            if not p2.startswith("jsonpath::selector::Selector::<'a>::") or b2.kind == 'Promoted' or p2 == hp:
+                continue
+            paths2, _ = region_paths(b2)
+            rl2 = {i for i in range(1, b2.argc + 1) if b2.name_of(i) == 'root' or '[u8]' in str(b2.local_ty(i).get('s', ''))}
+            for q2 in paths2:
+                for e2 in q2.calls():
+                    if canon(e2[1]) != canon(hp):
+                        continue
+                    used = any(e2[4] in set(subterms(a)) for e3 in q2.calls() if e3 is not e2 for a in e3[2]) or (q2.ret is not None and e2[4] in set(subterms(q2.ret)))
+                    if not used:
+                        continue       # the entry word it returns is dropped by this caller
+                    if kind_tested(q2, exclude=True):
+                        verdicts.append('ok')
+                    elif any(any(s_[0] == 'init' and s_[1] in rl2 for s_ in subterms(c[0])) and any(s_[0] == 'call' for s_ in subterms(c[0])) for c in q2.conds[:e2[6]]):
+                        verdicts.append('unsure')
+                    else:
+                        verdicts.append('bad')
+        loc = f'{hb.file}:{hb.line}'
+        if verdicts and all(v == 'ok' for v in verdicts):
+            run.proved(rule, hp, 'nested-entry', f'returns a CONTAINER_TAG entry word; each of the {len(verdicts)} call path(s) that use it tested the header kind first', loc)
+        elif not verdicts or 'bad' not in verdicts:
+            run.undecided(rule, hp, 'nested-entry', 'returns a CONTAINER_TAG entry word for copied bytes; its callers decide through a test this rule does not read (or no caller that uses the word was found): '
+                          'whether a scalar document is excluded is not decided', loc)
+        elif not root_producers:
+            run.proved(rule, hp, 'nested-entry', 'no selector function records the whole root as a Container position without testing its header kind', loc)
+        else:
+            run.violation(rule, hp, 'nested-entry', 'returns a CONTAINER_TAG entry word for the copied bytes of a Container position and a caller uses it without any test of their header kind: '
+                          '`$` on a scalar root in array mode nests a scalar document as an element, which is not the canonical encoding', loc)
     if not n:
         run.undecided(rule, 'selector writers', 'nested-entry', 'no selector function emits a CONTAINER_TAG entry word for copied bytes (moved?): not decided')
+
+
+def r06_13(ctx, run, rule='R06.13'):
+    """delete_by_name on an array removes *every* string element equal to the name (the byte-level twin skips each match while
+    copying); the tree twin must not stop at the first match."""
+    f = ctx.facts
+    fn = 'functions::delete_by_name'
+    b = f.bodies.get(fn)
+    if b is None:
+        run.undecided(rule, fn, 'all-matches', 'function not found (anchor lost)')
+        return
+    loops = natural_loops(b)
+    in_loop = set().union(*loops.values()) if loops else set()
+    names = [(bb, canon(callee_name(t))) for bb, t in b.calls()]
+    loc = f'{b.file}:{b.line}'
+    if any(n.endswith(('Vec::retain', 'Vec::retain_mut', 'Vec::extract_if', 'Vec::dedup_by')) for _, n in names):
+        run.proved(rule, fn, 'all-matches', 'the tree branch removes matching elements with Vec::retain (every match)', loc)
+        return
+    single = [(bb, n) for bb, n in names if n.endswith(('Vec::remove', 'Vec::swap_remove')) and bb not in in_loop]
+    if single:
+        run.violation(rule, fn, 'all-matches', f'the tree branch removes a single element ({single[0][1].split("::")[-1]} outside any loop): when the name occurs more than once in the array '
+                      'only the first occurrence is deleted, while the byte-level twin deletes all of them', loc)
+    else:
+        run.undecided(rule, fn, 'all-matches', 'how the tree branch removes matching array elements was not recognised (no retain, no single remove): not decided', loc)
+
+
+def r11_6(ctx, run, rule='R11.6'):
+    """Tree twin of concat: merging two objects (or two arrays) moves the *right* operand's entries into the *left* one
+    (`left.append(&mut right)`): for maps the appended side wins on duplicate keys, for vectors the order is left then right."""
+    from rules.c08 import param_provenance
+    f = ctx.facts
+    fn = 'functions::concat_values'
+    b = f.bodies.get(fn)
+    if b is None:
+        run.undecided(rule, fn, 'merge-direction', 'function not found (anchor lost)')
+        return
+    ps, _ = explore(b, max_paths=2000)
+    loc = f'{b.file}:{b.line}'
+    seen = {}
+    for q in ps:
+        for e in q.calls():
+            if not (called(e[1], 'BTreeMap::append', 'Vec::append', 'BTreeMap::extend') and len(e[2]) == 2):
+                continue
+            pr, po = param_provenance(b, e[2][0]), param_provenance(b, e[2][1])
+            kind = 'map' if 'BTreeMap' in e[1] else 'vec'
+            line = e[5].get('line')
+            if pr == {1} and po == {2}:
+                seen.setdefault((kind, line), 'ok')
+            elif pr == {2} and po == {1}:
+                seen[(kind, line)] = 'rev'
+            elif kind == 'map':
+                seen.setdefault((kind, line), 'unknown')
+    if not any(k[0] == 'map' for k in seen):
+        run.undecided(rule, fn, 'merge-direction', 'no BTreeMap::append / extend between the two operands was found (merged another way?): which side wins on duplicate keys is not decided', loc)
+    for (kind, line), v in sorted(seen.items(), key=str):
+        d = f'merge-direction[{kind}@{len([1 for k in sorted(seen, key=str) if str(k) < str((kind, line))])}]'
+        at = f'{b.file}:{line}' if line else loc
+        if v == 'ok':
+            run.proved(rule, fn, d, 'the right operand is appended into the left one' + (' (right wins on duplicate keys)' if kind == 'map' else ' (left elements first)'), at)
+        elif v == 'rev':
+            run.violation(rule, fn, d, 'the left operand is appended into the right one: ' + ('on duplicate keys the left value wins, while the byte-level twin (and the documented behaviour) lets the right value win'
+                          if kind == 'map' else 'the elements come out right-then-left'), at)
+        else:
+            run.undecided(rule, fn, d, 'the operands of this merge could not be traced to the two parameters: direction not decided', at)
